@@ -389,6 +389,18 @@ func partAInts(c *ctxA, K int) {
 					continue // the checker never calls the package with a zero divisor
 				}
 				d := "(" + as + ") " + op.name + " (" + bs + ")"
+				if op.name == "/=" && a.IsInt64() && a.Int64() == math.MinInt64 && b.IsInt64() && b.Int64() == -1 {
+					// go/constant folds this one quotient in int64 arithmetic (it wraps to MinInt64):
+					// the reference is wrong here, math/big decides alone
+					c.r.Evals.Add(1)
+					var w wconst.Value
+					if pn := mc.Recover(func() { w = wconst.BinaryOp(pa.w, op.w, pb.w) }); pn != "" {
+						c.report("BinaryOp", op.name, cls, "panic", d+": "+pn, map[string]any{"call": d})
+					} else {
+						c.wantInt("BinaryOp", op.name, cls, d, w, new(big.Int).Quo(a, b))
+					}
+					continue
+				}
 				p, ok := c.check("BinaryOp", op.name, cls, d, func() wconst.Value { return wconst.BinaryOp(pa.w, op.w, pb.w) }, func() gconst.Value { return gconst.BinaryOp(pa.g, op.g, pb.g) })
 				if !ok {
 					continue
